@@ -25,7 +25,7 @@ Clauses (class = [C10, clause]):
   sub-kkt       KKT residual of the returned (x, y, z, lam, xsi, eta, mu, zet, s), recomputed here with eps = 0, is at most
                 20 * epsimin (the accuracy handed to subsolv) and all multipliers / slacks are non-negative
   write-back    at the next callback the variable signals hold exactly the segments of the returned vector, sizes kept
-  liveness      within the iteration budget the objective gap closes to <= 1 % of the initial gap (floor: 1 % of 1+|f*|)
+  liveness      within the iteration budget the objective gap closes to <= 1 % of the initial gap (floor: 5 % of 1+|f*|)
                 and every constraint ends <= 1e-6 * scale (constraints are normalised to O(1))
   exception     minimize_mma raises on a well-posed convex problem
 
@@ -806,7 +806,9 @@ def _liveness(case, pb, res, snaps, subs, probe, skip, margin, viol, out_txt):
     x_end = np.concatenate(snaps[-1])
     x0 = pb["x0"]
     f0, fe = resps[0].value(x0), resps[0].value(x_end)
-    gap0 = max(abs(f0 - fstar), 1e-2 * (1.0 + abs(fstar)))
+    # initial gap with a floor (a start next to the optimum must not turn "1 %" into an accuracy requirement: once the
+    # asymptote offsets have collapsed to their floor 1/asybound^2 the iterates creep by <= 0.9 % of the range per iteration)
+    gap0 = max(abs(f0 - fstar), 5e-2 * (1.0 + abs(fstar)))
     gape = abs(fe - fstar)
     ge = max(r.value(x_end) for r in resps[1:])
     # Iteration budget that entitles the caller to a 1 % gap.  MMA approximations are monotone in every variable, so around an
@@ -817,7 +819,8 @@ def _liveness(case, pb, res, snaps, subs, probe, skip, margin, viol, out_txt):
     if case["asyincr"] > 1.2 + 1e-12 or case["asydecr"] > 0.7 + 1e-12:
         # plain MMA (no GCMMA inner loop) is not globally convergent: with aggressive widening (asyincr = 1.5) or weak
         # narrowing (asydecr = 0.9) the unchanged tree cycles for hundreds of iterations on some convex problems
-        # (calibration: 3 of 108 runs with asyincr = 1.5 miss the 1 % gap after 100-300 iterations, none of 224 otherwise)
+        # (calibration over 400 judged thorough-tier runs: 3 of 108 runs with asyincr = 1.5 miss the 1 % gap after 100-300
+        # iterations, asydecr = 0.9 reaches 40 % of the bound, the 224 runs inside the judged region stay below 2 % of it)
         skip("liveness_not_judged_nondefault_asymptote_dynamics")
         res["trace"].append("live:skip-asy")
         margin("unjudged_gap_over_bound", gape / (0.01 * gap0))
